@@ -241,9 +241,8 @@ def compare_with_reference(it, tab):
         gj = classify_delta(rj, tab['j'], tab['jmax'], bL, it)
 
         def same(got, want, at_max):
-            if want == 'min':
-                return got == 'min' or got == (0 if at_max else 1)
-            return got == want
+            # min(c_max, c + 1) is c + 1 below the last piece and c on it: compare what the step does in this row
+            return norm_delta(got, at_max) == norm_delta(want, at_max)
         if not same(gi, wi, aL):
             bad.append('%s a_last=%s b_last=%s: i′ = %s, reference %s' % (c, aL, bL, gi if not isinstance(gi, int) else 'i+%d' % gi, 'min(i_max, i+1)' if wi == 'min' else 'i+%d' % wi))
         if not same(gj, wj, bL):
